@@ -55,38 +55,38 @@ func fromDAOKeepZero(m map[string]int64) map[string]int64 {
 }
 
 type QueueSnap struct {
-	Path        string           `json:"path"`
-	Parent      string           `json:"parent"`
-	State       string           `json:"state"`
-	Managed     bool             `json:"managed"`
-	Leaf        bool             `json:"leaf"`
-	Max         map[string]int64 `json:"max"` // nil = not set; explicit zeros kept
-	Guaranteed  map[string]int64 `json:"guar"`
-	Allocated   Res              `json:"alloc"`
-	Pending     Res              `json:"pending"`
-	Preempting  Res              `json:"preempting"`
-	Running     uint64           `json:"running"`
-	MaxApps     uint64           `json:"maxApps"`
-	AllocAcc    []string         `json:"allocAcc"`
-	Reserved    map[string]int   `json:"reserved"`
-	Apps        []string         `json:"apps"`
-	Children    []string         `json:"children"`
-	Props       map[string]string `json:"props"`
-	SortPolicy  string           `json:"sort"`
-	PrioSort    bool             `json:"prioSort"`
-	PreemptOn   bool             `json:"preemptOn"`
-	PreemptFence bool            `json:"preemptFence"`
-	PrioFence   bool             `json:"prioFence"`
-	PrioOffset  int32            `json:"prioOffset"`
-	PreemptDelay string          `json:"preemptDelay"`
-	QuotaDelay  string           `json:"quotaDelay"`
-	CurPrio     int32            `json:"curPrio"`
-	Template    string           `json:"template"`
-	QPSet       bool             `json:"qpSet"`
-	QPDue       bool             `json:"-"`
-	QPRunning   bool             `json:"qpRunning"`
-	HeadRoom    map[string]int64 `json:"headroom"`
-	EffMax      map[string]int64 `json:"effMax"`
+	Path         string            `json:"path"`
+	Parent       string            `json:"parent"`
+	State        string            `json:"state"`
+	Managed      bool              `json:"managed"`
+	Leaf         bool              `json:"leaf"`
+	Max          map[string]int64  `json:"max"` // nil = not set; explicit zeros kept
+	Guaranteed   map[string]int64  `json:"guar"`
+	Allocated    Res               `json:"alloc"`
+	Pending      Res               `json:"pending"`
+	Preempting   Res               `json:"preempting"`
+	Running      uint64            `json:"running"`
+	MaxApps      uint64            `json:"maxApps"`
+	AllocAcc     []string          `json:"allocAcc"`
+	Reserved     map[string]int    `json:"reserved"`
+	Apps         []string          `json:"apps"`
+	Children     []string          `json:"children"`
+	Props        map[string]string `json:"props"`
+	SortPolicy   string            `json:"sort"`
+	PrioSort     bool              `json:"prioSort"`
+	PreemptOn    bool              `json:"preemptOn"`
+	PreemptFence bool              `json:"preemptFence"`
+	PrioFence    bool              `json:"prioFence"`
+	PrioOffset   int32             `json:"prioOffset"`
+	PreemptDelay string            `json:"preemptDelay"`
+	QuotaDelay   string            `json:"quotaDelay"`
+	CurPrio      int32             `json:"curPrio"`
+	Template     string            `json:"template"`
+	QPSet        bool              `json:"qpSet"`
+	QPDue        bool              `json:"-"`
+	QPRunning    bool              `json:"qpRunning"`
+	HeadRoom     map[string]int64  `json:"headroom"`
+	EffMax       map[string]int64  `json:"effMax"`
 }
 
 type AskSnap struct {
@@ -185,18 +185,18 @@ type GroupSnap struct {
 }
 
 type PartSnap struct {
-	Name         string `json:"name"`
-	State        string `json:"state"`
-	Total        Res    `json:"total"`
-	Allocations  int    `json:"allocations"`
-	PhAllocs     int    `json:"phAllocs"`
-	Reservations int    `json:"reservations"`
-	NodeSort     string `json:"nodeSort"`
-	Preemption   bool   `json:"preemption"`
-	QuotaPreempt bool   `json:"quotaPreempt"`
+	Name         string            `json:"name"`
+	State        string            `json:"state"`
+	Total        Res               `json:"total"`
+	Allocations  int               `json:"allocations"`
+	PhAllocs     int               `json:"phAllocs"`
+	Reservations int               `json:"reservations"`
+	NodeSort     string            `json:"nodeSort"`
+	Preemption   bool              `json:"preemption"`
+	QuotaPreempt bool              `json:"quotaPreempt"`
 	Foreign      map[string]string `json:"foreign"`
-	NodeOrder    []string `json:"nodeOrder"`
-	Rules        string `json:"rules"`
+	NodeOrder    []string          `json:"nodeOrder"`
+	Rules        string            `json:"rules"`
 }
 
 // Snap is the complete observable state of the real core plus the shim model and the monitor memory.
@@ -262,7 +262,7 @@ func snapApp(app *objects.Application, where string) *AppSnap {
 		User: app.GetUser().User, Groups: append([]string{}, app.GetUser().Groups...),
 		Allocated: FromResource(app.GetAllocatedResource()), Placeholder: FromResource(app.GetPlaceholderResource()),
 		Pending: FromResource(app.GetPendingResource()),
-		Asks: map[string]AskSnap{}, Allocs: map[string]AllocSnap{}, Reservations: app.VerifReservations(), PhData: map[string]PhDataSnap{},
+		Asks:    map[string]AskSnap{}, Allocs: map[string]AllocSnap{}, Reservations: app.VerifReservations(), PhData: map[string]PhDataSnap{},
 		Sorted: app.VerifSortedRequestKeys(), Forced: app.IsCreateForced(),
 	}
 	as.TimerPh, as.TimerState = app.VerifTimers()
